@@ -38,6 +38,7 @@ import (
 	"context"
 	"encoding/json"
 	"fmt"
+	"reflect"
 	"sort"
 	"strings"
 	"time"
@@ -86,6 +87,12 @@ type c08Env struct {
 	pl    *Plugin
 	clk   *clocktesting.FakeClock
 	useR3 bool
+	// pristine is a deep copy of the args taken before any koordinator code saw them. Everything the
+	// oracles compute (per-pod estimate, node allocatable, estimation deadline, the fresh cache) is
+	// computed from a NEW estimator / cache built from a new deep copy of it, so that the oracle's
+	// values are functions of (object, configuration) only and never of what the live plugin's
+	// estimator or args have been through.
+	pristine *config.LoadAwareSchedulingArgs
 	// durations used in aggregated usages of generated reports (distinct, positive)
 	aggDurations []time.Duration
 }
@@ -135,7 +142,7 @@ func c08GenArgs(r *kit.Rand) (*config.LoadAwareSchedulingArgs, bool) {
 }
 
 func c08NewEnv(c *kit.Case, args *config.LoadAwareSchedulingArgs, useR3 bool, start time.Time) *c08Env {
-	e := &c08Env{args: args, useR3: useR3}
+	e := &c08Env{args: args, useR3: useR3, pristine: args.DeepCopy()}
 	e.vec = NewResourceVectorizerFromArgs(args)
 	est, err := estimator.NewDefaultEstimator(args, nil)
 	if err != nil {
@@ -148,6 +155,36 @@ func c08NewEnv(c *kit.Case, args *config.LoadAwareSchedulingArgs, useR3 bool, st
 	e.pl = &Plugin{args: args, vectorizer: e.vec, filterProfile: NewUsageThresholdsFilterProfile(args, e.vec), estimator: est, podAssignCache: e.cache}
 	e.aggDurations = []time.Duration{5 * time.Minute, 10 * time.Minute, 30 * time.Minute}
 	return e
+}
+
+// oracleArgs returns a new deep copy of the configuration as generated.
+func (e *c08Env) oracleArgs() *config.LoadAwareSchedulingArgs { return e.pristine.DeepCopy() }
+
+// freshEst builds a new estimator instance from the configuration as generated (no shared state
+// with the live plugin's estimator, not even the configured-factor map).
+func (e *c08Env) freshEst() estimator.Estimator {
+	est, err := estimator.NewDefaultEstimator(e.oracleArgs(), nil)
+	if err != nil {
+		panic(fmt.Sprintf("harness: estimator: %v", err))
+	}
+	return est
+}
+
+// oracleEstimatePod: the pod's estimate as a function of the pod and the configuration only.
+func (e *c08Env) oracleEstimatePod(pod *corev1.Pod) []int64 {
+	out := make([]int64, len(e.vec))
+	list, err := e.freshEst().EstimatePod(pod.DeepCopy())
+	if err == nil {
+		for i, name := range e.vec {
+			out[i] = list[name]
+		}
+	}
+	return out
+}
+
+// oracleDeadline: the estimation deadline as a function of the pod, its assignment time and the configuration only.
+func (e *c08Env) oracleDeadline(pod *corev1.Pod, ts time.Time) time.Time {
+	return (&podAssignCache{args: e.oracleArgs()}).shouldEstimatePodDeadline(pod, ts)
 }
 
 func (e *c08Env) argsString() string {
@@ -577,48 +614,124 @@ func c08T(t time.Time) string {
 	return t.UTC().Format("01-02T15:04:05.000000000")
 }
 
-// c08MutatePod derives the next informer version of a pod. kind is chosen by the caller.
-func (m *c08Model) mutate(r *kit.Rand, p *c08Pod, kind string, now time.Time) *corev1.Pod {
-	n := p.inf.DeepCopy()
+// mutate derives the next informer version of a pod by applying ALL the given aspects in one update
+// (the API server coalesces nothing, but one writer often changes several things at once — a kubelet
+// reports phase and conditions of a finished pod in a single status update).
+//
+//	resources | priority           spec changes
+//	cond-init | cond-sched | cond-ready   status.conditions changes
+//	phase-running | terminate      phase changes (terminate: Succeeded/Failed)
+//	kubelet-complete               phase Succeeded/Failed + Ready/ContainersReady=False(PodCompleted) in one update
+//	labels                         koordinator priority-class / QoS label changed or removed — kept only when the
+//	                               same update also changes spec or conditions (label-only updates are ignored by
+//	                               the cache by design and therefore not generated) and only for bound pods
+//	node-change | noop
+//
+// It returns the new object and the aspects that really changed something.
+func (m *c08Model) mutate(r *kit.Rand, p *c08Pod, aspects []string, now time.Time) (*corev1.Pod, []string) {
+	old := p.inf
+	n := old.DeepCopy()
 	sec := now.Truncate(time.Second)
-	switch kind {
-	case "resources":
-		flavor := r.Weighted(60, 15, 10, 15)
-		i := r.Intn(len(n.Spec.Containers))
-		n.Spec.Containers[i].Resources = c08GenResources(r, flavor, m.env.useR3)
-	case "priority":
-		n.Spec.Priority = kit.Pick(r, c08Priorities)
-	case "cond-init":
-		if r.Pct(80) {
-			c08SetCond(n, corev1.PodInitialized, corev1.ConditionTrue, sec.Add(-time.Duration(kit.Pick(r, []int{0, 1, 30, 60, 600, 3600}))*time.Second))
-		} else {
-			c08SetCond(n, corev1.PodInitialized, corev1.ConditionFalse, sec)
-		}
-	case "cond-sched":
-		if n.Spec.NodeName != "" {
-			c08SetCond(n, corev1.PodScheduled, corev1.ConditionTrue, sec.Add(-time.Duration(kit.Pick(r, []int{0, 1, 59, 60, 61, 300, 7200}))*time.Second))
-		} else {
-			c08SetCond(n, corev1.PodScheduled, corev1.ConditionFalse, sec)
-		}
-	case "cond-ready":
-		c08SetCond(n, corev1.PodReady, kit.Pick(r, []corev1.ConditionStatus{corev1.ConditionTrue, corev1.ConditionFalse}), sec)
-	case "phase-running":
-		if n.Spec.NodeName != "" {
-			n.Status.Phase = corev1.PodRunning
-		}
-	case "noop":
-	case "terminate":
-		n.Status.Phase = kit.Pick(r, []corev1.PodPhase{corev1.PodSucceeded, corev1.PodFailed})
-	case "node-change":
-		var others []string
-		for _, nd := range m.nodes {
-			if nd != n.Spec.NodeName {
-				others = append(others, nd)
+	wantLabels := false
+	for _, kind := range aspects {
+		switch kind {
+		case "resources":
+			flavor := r.Weighted(60, 15, 10, 15)
+			i := r.Intn(len(n.Spec.Containers))
+			n.Spec.Containers[i].Resources = c08GenResources(r, flavor, m.env.useR3)
+		case "priority":
+			n.Spec.Priority = kit.Pick(r, c08Priorities)
+		case "cond-init":
+			if r.Pct(80) {
+				c08SetCond(n, corev1.PodInitialized, corev1.ConditionTrue, sec.Add(-time.Duration(kit.Pick(r, []int{0, 1, 30, 60, 600, 3600}))*time.Second))
+			} else {
+				c08SetCond(n, corev1.PodInitialized, corev1.ConditionFalse, sec)
 			}
+		case "cond-sched":
+			if n.Spec.NodeName != "" {
+				c08SetCond(n, corev1.PodScheduled, corev1.ConditionTrue, sec.Add(-time.Duration(kit.Pick(r, []int{0, 1, 59, 60, 61, 300, 7200}))*time.Second))
+			} else {
+				c08SetCond(n, corev1.PodScheduled, corev1.ConditionFalse, sec)
+			}
+		case "cond-ready":
+			c08SetCond(n, corev1.PodReady, kit.Pick(r, []corev1.ConditionStatus{corev1.ConditionTrue, corev1.ConditionFalse}), sec)
+		case "phase-running":
+			if n.Spec.NodeName != "" && !c08Terminated(n) {
+				n.Status.Phase = corev1.PodRunning
+			}
+		case "terminate":
+			n.Status.Phase = kit.Pick(r, []corev1.PodPhase{corev1.PodSucceeded, corev1.PodFailed})
+		case "kubelet-complete":
+			n.Status.Phase = kit.Pick(r, []corev1.PodPhase{corev1.PodSucceeded, corev1.PodSucceeded, corev1.PodFailed})
+			for _, typ := range []corev1.PodConditionType{corev1.PodReady, corev1.ContainersReady} {
+				c08SetCond(n, typ, corev1.ConditionFalse, sec)
+				for i := range n.Status.Conditions {
+					if n.Status.Conditions[i].Type == typ {
+						n.Status.Conditions[i].Reason = "PodCompleted"
+					}
+				}
+			}
+			if r.Pct(40) {
+				c08SetCond(n, corev1.PodInitialized, corev1.ConditionTrue, sec.Add(-time.Duration(kit.Pick(r, []int{30, 600}))*time.Second))
+				for i := range n.Status.Conditions {
+					if n.Status.Conditions[i].Type == corev1.PodInitialized {
+						n.Status.Conditions[i].Reason = "PodCompleted"
+					}
+				}
+			}
+		case "labels":
+			wantLabels = true
+		case "node-change":
+			var others []string
+			for _, nd := range m.nodes {
+				if nd != n.Spec.NodeName {
+					others = append(others, nd)
+				}
+			}
+			n.Spec.NodeName = kit.Pick(r, others)
+		case "noop":
 		}
-		n.Spec.NodeName = kit.Pick(r, others)
 	}
-	return n
+	observed := !reflect.DeepEqual(&n.Spec, &old.Spec) || !reflect.DeepEqual(n.Status.Conditions, old.Status.Conditions)
+	if wantLabels && observed && old.Spec.NodeName != "" {
+		lb := map[string]string{}
+		for k, v := range old.Labels {
+			lb[k] = v
+		}
+		switch r.Intn(3) {
+		case 0:
+			lb[extension.LabelPodPriorityClass] = string(kit.Pick(r, []extension.PriorityClass{extension.PriorityProd, extension.PriorityMid, extension.PriorityBatch, "bogus"}))
+		case 1:
+			lb[extension.LabelPodQoS] = string(kit.Pick(r, []extension.QoSClass{extension.QoSBE, extension.QoSLS, extension.QoSLSR}))
+		case 2:
+			delete(lb, extension.LabelPodPriorityClass)
+			delete(lb, extension.LabelPodQoS)
+		}
+		if len(lb) == 0 {
+			lb = nil
+		}
+		n.Labels = lb
+	}
+	var changed []string
+	if !reflect.DeepEqual(n.Spec.Containers, old.Spec.Containers) {
+		changed = append(changed, "resources")
+	}
+	if !reflect.DeepEqual(n.Spec.Priority, old.Spec.Priority) {
+		changed = append(changed, "priority")
+	}
+	if n.Spec.NodeName != old.Spec.NodeName {
+		changed = append(changed, "node")
+	}
+	if !reflect.DeepEqual(n.Status.Conditions, old.Status.Conditions) {
+		changed = append(changed, "conditions")
+	}
+	if n.Status.Phase != old.Status.Phase {
+		changed = append(changed, "phase")
+	}
+	if !reflect.DeepEqual(n.Labels, old.Labels) {
+		changed = append(changed, "labels")
+	}
+	return n, changed
 }
 
 // bindConfirm builds the informer version that shows the binding of a reserved pod.
@@ -921,18 +1034,66 @@ func (m *c08Model) assignedOn(node string) []c08Assigned {
 				a.ts = env.clk.Now()
 			}
 		}
-		a.dl = env.cache.shouldEstimatePodDeadline(obj, a.ts)
-		list, err := env.est.EstimatePod(obj)
-		a.e = make([]int64, len(env.vec))
-		if err == nil {
-			for i, name := range env.vec {
-				a.e[i] = list[name]
-			}
-		}
+		a.dl = env.oracleDeadline(obj, a.ts)
+		a.e = env.oracleEstimatePod(obj)
 		a.prod = extension.GetPodPriorityClassWithDefault(obj) == extension.PriorityProd
 		out = append(out, a)
 	}
 	return out
+}
+
+// ghostPod: does the cache (anchored state nodeInfo.podInfos) still hold, for node, a pod that the
+// shadow model does not assign to node (terminated, deleted, rolled back, moved)? Diagnosis only: it
+// narrows the signature of a violation raised by an estimate oracle.
+func (m *c08Model) ghostPod(node string) bool {
+	want := map[types.UID]bool{}
+	for _, p := range m.pods {
+		if nd, _ := p.assigned(); nd == node {
+			want[p.uid] = true
+		}
+	}
+	n, ok := m.env.cache.getNodeInfo(node)
+	if !ok || n == nil {
+		return false
+	}
+	n.RLock()
+	defer n.RUnlock()
+	for uid := range n.podInfos {
+		if !want[uid] {
+			return true
+		}
+	}
+	return false
+}
+
+// podEstimateDiffers: does the cache keep, for some assigned pod, a per-pod estimate (anchored state
+// podAssignInfo.estimated) other than what a NEW estimator built from the configuration gives for
+// the pod's object? Diagnosis only: it narrows the signature of a violation raised by an estimate
+// oracle (the kept node estimate is then not what is computed from scratch because a per-pod
+// estimate depends on something else than the pod and the configuration, e.g. on estimation history).
+func (m *c08Model) podEstimateDiffers(node string, pods []c08Assigned) bool {
+	n, ok := m.env.cache.getNodeInfo(node)
+	if !ok || n == nil {
+		return false
+	}
+	n.RLock()
+	defer n.RUnlock()
+	for _, a := range pods {
+		pi := n.podInfos[a.p.uid]
+		if pi == nil {
+			continue
+		}
+		for i := range a.e {
+			var v int64
+			if pi.estimated != nil {
+				v = pi.estimated[i]
+			}
+			if v != a.e[i] {
+				return true
+			}
+		}
+	}
+	return false
 }
 
 // c08ReportedPodUsage looks the pod up in the report: its usage vector (nil = the report carries no
@@ -1090,7 +1251,7 @@ func c08VecEq(a ResourceVector, b []int64) bool {
 
 // c08Fresh builds a fresh cache from the current report and the assigned pods, in random order.
 func c08Fresh(r *kit.Rand, env *c08Env, node string, nm *slov1alpha1.NodeMetric, pods []c08Assigned) (*podAssignCache, string) {
-	f := newPodAssignCache(env.est, env.vec, env.args)
+	f := newPodAssignCache(env.freshEst(), env.vec, env.oracleArgs())
 	clk := clocktesting.NewFakeClock(env.clk.Now())
 	f.clock = clk
 	order := r.Perm(len(pods))
@@ -1130,6 +1291,12 @@ func c08CheckNode(c *kit.Case, or *kit.Rand, m *c08Model, node string, modes []c
 			if lost := m.lostObject(node); lost != "" {
 				return "C08/lost-event/" + lost
 			}
+		}
+		if m.ghostPod(node) {
+			return "C08/estimate/ghost-pod-kept"
+		}
+		if m.podEstimateDiffers(node, pods) {
+			return "C08/estimate/pod-estimate-not-from-scratch"
 		}
 		return def
 	}
